@@ -1,12 +1,13 @@
 """Single source for MANIFEST.json (tools/gen_manifest.py)."""
 CHECKS = {
     "C02": {
-        "engine": "PathAI (E1)",
-        "technique": "path-sensitive static analysis (must-pass-through / typestate over LLVM IR paths)",
+        "engine": "PathAI (E1) + dead-store analysis on peeled paths (E13)",
+        "technique": "path-sensitive static analysis (must-pass-through / typestate over LLVM IR paths) + overwritten-before-read store analysis",
         "text": "Static, for all inputs: every success exit of every public open/decrypt/verify/pull entry point and of every "
                 "function it delegates to (incl. all dispatch-slot targets) is reached only after a full-length constant-time "
                 "comparison of the recomputed tag with the caller's tag returned 0; shortened lengths cannot wrap; on every failing "
-                "exit the reported length is 0 and every data-dependent output write is followed by a constant fill. This decides the "
+                "exit the reported length is 0 and every data-dependent output write is followed by a constant fill; in the one-time-authenticator "
+                "units no padding store is overwritten before it can be read (R2.7, peeled paths: the 0x01 terminator of the last Poly1305 block). This decides the "
                 "control/data-flow clauses of C02, not the MAC arithmetic (that a changed bit changes the tag).",
     },
     "C03": {
@@ -20,7 +21,8 @@ CHECKS = {
                 "(R3.2): in every compiled ChaCha20 / Salsa20 backend (counter words read from the backend's own ivsetup) each write-back of "
                 "the high counter word depends - by data or control - on the low word, and no vector operation mixes a value derived from "
                 "the high word alone into the cipher state (lanes are consecutive blocks). No lost block (R3.3): on every returning path of every "
-                "stream backend, data written into a local bounce buffer is read again before the return; no carry in the stream units is "
+                "stream backend, data written into a local bounce buffer is read again before the return; batches are independent (R3.6: no value "
+                "produced by the rounds of one batch is carried around a multi-block loop into the next); no carry in the stream units is "
                 "identically zero (R3.4) and the byte-wise counters of the portable Salsa20 family carry continuously (R3.5). Keystream bytes, the per-lane arithmetic, offset "
                 "equivalence, the byte-wise counter of the portable Salsa20 reference and the arithmetic of the guard threshold are not decided.",
     },
@@ -33,7 +35,9 @@ CHECKS = {
                 "only after recomputing the tag over the caller's (in, inlen, k) and a full-length constant-time comparison with the caller's "
                 "tag, incl. every dispatch target of the generic front ends (R4.2); in the Poly1305 units no right shift / mask of a non-literal "
                 "value is identically zero (R4.4, known-bits: a limb masked to k bits before `>> k` reads its carry cuts the carry chain and "
-                "makes the final reduction dead), and branch-free selects choose between a value and the value computed from it (R4.5). Digest values, chunking associativity, the values of the Poly1305 carries and HKDF chaining "
+                "makes the final reduction dead), and branch-free selects choose between a value and the value computed from it (R4.5); no store in the hash / MAC / KDF units is "
+                "overwritten before it can be read (R4.6, peeled paths); the BLAKE2b KDF hands (key, salt = LE64(subkey_id) || 0^8, personal = the "
+                "caller's 8 context bytes copied verbatim || 0^8, outlen = subkey_len, empty message) to the keyed hash (R4.7). Digest values, chunking associativity, the values of the Poly1305 carries and HKDF chaining "
                 "are not decided.",
     },
     "C05": {
@@ -47,7 +51,9 @@ CHECKS = {
                 "peer pk) into 64 bytes, fill each supplied buffer from one half, and the halves are crossed (client rx = server tx, client tx = "
                 "server rx) in every mode against every mode - this reports the genuine defect F4 (single-key mode returns the wrong half; "
                 "listed in known_findings.txt). In-place calls (R5.3): every ladder entry reads scalar and point completely before the first "
-                "write through the output. RFC 7748 values, clamping arithmetic and hash values are not decided.",
+                "write through the output; clamping and the ignored bit 255 by bit-flow (R5.4); `(hi << k) | lo` packings in the X25519 units have "
+                "provably bit-disjoint operands, so the loosely reduced ladder output is repacked with `+` (R5.5). RFC 7748 values, the ladder "
+                "arithmetic and hash values are not decided.",
     },
     "C06": {
         "engine": "PathAI (E1) + call-graph effects (E2)",
@@ -55,7 +61,8 @@ CHECKS = {
         "text": "Static, for all inputs: the Ed25519 verifier can return 0 only on paths where S is canonical, A is canonical, decodes and is not "
                 "of small order, R decodes and is not of small order, and the result is the small-order test of p3_sub(R, [h]A+[S]B) with "
                 "h = SHA-512(R,A,M) reduced; all public verify/open wrappers inherit it and zero their outputs on failure; signing and seeded "
-                "key generation reach no randomness/time source and no mutable global (deterministic). RFC 8032 values and group/scalar "
+                "key generation reach no randomness/time source and no mutable global (deterministic), and nothing reachable from the verification "
+                "entry points writes or reads mutable process-global state either (R6.2-g: the verdict is a function of its arguments alone). RFC 8032 values and group/scalar "
                 "arithmetic are not decided.",
     },
     "C07": {
@@ -70,7 +77,9 @@ CHECKS = {
                 "covers the inverted denominator (R7.5); ge25519_is_canonical's verdict cannot depend on bit 255 (the sign of x) and can depend on "
                 "each of the other 255 bits, ristretto255_is_canonical, sc25519_is_canonical and the point decoders on all 256 (R7.6); the scalar "
                 "arithmetic APIs hand out results whose last writer reduces modulo L (R7.7); no carry in the field / scalar / X25519 limb code is "
-                "identically zero (R7.8, known-bits, one confirmed exception) and cmov/cswap-style selects choose between the two values they mix "
+                "identically zero (R7.8, known-bits, one confirmed exception); expand_message_xmd hashes the same, unmodified DST_prime bytes into b_0 "
+                "and every later block (R7.10 - reports the genuine defect F6 for contexts longer than 255 bytes, listed in known_findings.txt) and "
+                "replaces the tag exactly for contexts longer than 255 bytes (R7.11); cmov/cswap-style selects choose between the two values they mix "
                 "(R7.9). Field/scalar "
                 "arithmetic exactness and RFC vectors are not decided.",
     },
@@ -82,7 +91,9 @@ CHECKS = {
                 "scrypt: outlen, passwdlen - its cost parameters are mapped, not limited, by design); generic dispatchers only forward arguments to limit-checked "
                 "functions; both low-level scrypt backends establish N power of two in [2,2^32-1], r,p != 0, r*p < 2^30 and agree on all "
                 "guards; needs_rehash returns exactly -1/0/1, answers 0/1 only after successful decoding, 0 only with an equality fact per "
-                "compared parameter, and - for Argon2 strings - only if the decoded parameters passed argon2_validate_inputs() (R8.2-valid); the SIMD "
+                "compared parameter, and - for Argon2 strings - only if the decoded parameters passed argon2_validate_inputs() (R8.2-valid); before decoding, needs_rehash "
+                "answers -1 only for a requested opslimit / memlimit above the documented maximum, an over-long string or a failed allocation "
+                "(R8.2-refuse); the Argon2 block-fill backends agree on their scalar control skeleton (R8.5); the SIMD "
                 "Argon2 address generators hand a freshly zero-filled block to the in-place compression function at every use (R8.4); parsed "
                 "decimals are narrowed only after they were shown to fit (R8.3). Hash outputs and the rest of the string grammar are not decided.",
     },
@@ -92,7 +103,8 @@ CHECKS = {
         "text": "Static, for all inputs and states: a failing pull performs no write through the state and every state/plaintext write is "
                 "preceded by the passed 16-byte MAC comparison (R9.1); push and pull have identical post-MAC state-update signatures incl. "
                 "the rekey condition on the REKEY bit and on the wrapped counter, the same Poly1305 transcript, and init_push/init_pull "
-                "agree (R9.2); short input refused, *mlen_p = 0 on failure (R9.3). Whole-history delivery/ordering is not decided.",
+                "agree (R9.2); a rekey after a chunk is preceded by the counter increment, also when the common tail lives in a static "
+                "helper (R9.2-order; small same-file helpers are inlined before the path analysis); short input refused, *mlen_p = 0 on failure (R9.3). Whole-history delivery/ordering is not decided.",
     },
     "C10": {
         "engine": "ISA-feature / dispatch consistency (E4) + PathAI (E1) + call graph (E2) + known-bits (E12)",
@@ -104,7 +116,9 @@ CHECKS = {
                 "unit, whose is_available is exactly the conjunction of the flags its code needs; has_avx/avx2/avx512f are set only under "
                 "the CPUID bit test, the XGETBV OS-state test and the next-lower flag; in the limb code of every alternative backend no carry is "
                 "identically zero and no branch-free select mixes unrelated values (R10.4: the defect shapes that make one backend differ from "
-                "its siblings only for inputs of probability ~2^-128). These are necessary conditions; byte-identity of "
+                "its siblings only for inputs of probability ~2^-128); the four Argon2 block-fill backends have the same role-normalised scalar "
+                "control skeleton - every branch condition and every reference-lane / index computation agrees (R10.5, sibling agreement). "
+                "These are necessary conditions; byte-identity of "
                 "results across backends/configurations is NOT decided.",
     },
     "C11": {
@@ -133,7 +147,8 @@ CHECKS = {
                 "constant offset, or a callee reading a fixed number of bytes from buffer + k on every path) the branch facts establish "
                 "length >= that extent, and a remainder (buffer + k, length - d) handed on cannot wrap or overrun (R12.4: truncated-input "
                 "guards of seal_open / sign_open / secretstream pull / secretbox / AEAD combined modes); no fixed-size read at buffer + (length - r) "
-                "with r bounded below the read size by the branch facts (R12.5: whole-word loads at the tail of a word loop). General absence of out-of-bounds "
+                "with r bounded below the read size by the branch facts (R12.5: whole-word loads at the tail of a word loop); allocation requests "
+                "driven by cost parameters fail closed (R12.6: the allocation typestate of C20 over the password-hashing call graph). General absence of out-of-bounds "
                 "accesses and arithmetic UB is NOT decided.",
     },
     "C13": {
@@ -144,7 +159,7 @@ CHECKS = {
                 "forms only delegate to them) the first write through the output is preceded on every path by memmove(out, in, len) with the "
                 "input pointer rebound, or by facts excluding both overlap directions; signing moves the message with memmove before any "
                 "other write to sm and opening writes m only with memmove / constant fill (R13.1); in the AES-GCM generic encrypt / decrypt loops "
-                "and their block helpers no read through the input pointer can follow, within one generation of the loop index, a write through "
+                "their block helpers and the AEGIS-128L / AEGIS-256 block functions no read through the input pointer can follow, within one generation of the loop index, a write through "
                 "the output pointer to an overlapping byte range (R13.2; helper extents from scalar evolution) - with in == out such a read sees "
                 "the function's own output. Equality of outputs for every overlap offset, the assembly cores and accesses that cannot be put in "
                 "linear form are not decided.",
@@ -156,7 +171,9 @@ CHECKS = {
                 "stride and an exact trip count (no early exit), crypto_verify_16/32/64 results depend on exactly bytes [0, N) of both operands "
                 "(SSE2 body; byte-wise body in the thorough/portable tier), and sodium_memzero / sodium_stackzero hand exactly the requested "
                 "(pointer, length) to a non-elidable wipe; no carry of the C bodies of sodium_increment / add / sub / compare is identically zero "
-                "(R14.4, known-bits) and the loop-carried carry of each is recomputed from its previous value (R14.5). The ordering value of sodium_compare and the values of the carries of increment/add/sub are not decided.",
+                "(R14.4, known-bits), the loop-carried carry of each is recomputed from its previous value (R14.5), and in the amd64 inline assembly "
+                "every adc / sbb is fed by a carry-producing instruction with only CF-preserving instructions in between (R14.6: `inc; adc` "
+                "loses the carry). The ordering value of sodium_compare and the values of the carries of increment/add/sub are not decided.",
     },
     "C15": {
         "engine": "PathAI (E1)",
@@ -165,7 +182,9 @@ CHECKS = {
                 "path, every load of the encoded text is below its stated length, capacity exhaustion can only end in a failing return "
                 "(never a truncated success), and success without an end pointer requires position == length; sodium_base642bin reports success "
                 "only on a path holding W <= 4 and (accumulator & ((1 << W) - 1)) == 0 for the same leftover bit count W (R15.2: all trailing "
-                "bits were compared with zero). The rest of the accepted language, round-trip and encoder length formulas are not decided.",
+                "bits were compared with zero); no sign-extended text byte reaches a classification helper (R15.3 - this found the genuine defect "
+                "F7: bytes >= 0x80 accepted as the Base64 digit 63; repaired by a fix: commit); sodium_hex2bin skips an ignored character only "
+                "while no high nibble is pending (R15.4). The rest of the accepted language, round-trip and encoder length formulas are not decided.",
     },
     "C16": {
         "engine": "PathAI (E1) + affine evaluation + bit-flow (E11)",
@@ -174,7 +193,9 @@ CHECKS = {
                 "overflow test and marker-index < max_buflen (reported length = that index + 1); every sodium_unpad load is at "
                 "buf + padded_buflen - 1 - i with i < blocksize after padded_buflen >= blocksize > 0, i.e. inside the final block; every bit "
                 "(0..47) of the constant-time position comparison (i ^ xpadlen) can influence the stored padding bytes (R16.3: a comparison "
-                "narrowed to 32 bits treats positions that differ only above bit 31 as equal). Marker position, round-trip and the rejection "
+                "narrowed to 32 bits treats positions that differ only above bit 31 as equal); each of the 8 bits of the byte scanned by "
+                "sodium_unpad can influence the verdict accumulator within its own iteration (R16.4: the marker test is byte == 0x80, not a "
+                "test of bit 7). Marker position, round-trip and the rejection "
                 "set are not decided.",
     },
     "C17": {
@@ -209,7 +230,8 @@ CHECKS = {
                 "mutex held; the inventory of all mutable globals is enumerated from the IR and no public API function other than the "
                 "initialiser and four named lifecycle APIs stores to any of them, except through two lazy-init gates whose writes are "
                 "dominated by a 'not initialised' flag that sodium_init sets. Races inside libc/OS and sequential-equivalence of results "
-                "are not separately proved.",
+                "are not separately proved. randombytes_close() on the default generator resets the stream state only after it really closed the /dev/urandom "
+                "descriptor, so on the getrandom() path the lock-free lazy initialiser is never re-armed (R19.5).",
     },
     "C20": {
         "engine": "PathAI (E1) + call-graph effects (E2)",
@@ -219,7 +241,9 @@ CHECKS = {
                 "success exit has an established success fact for every fallible step on its path and no fallible result is dropped; the "
                 "*_str_verify functions report a match only via hash-succeeded and constant-time compare-equal; each allocation is released "
                 "at most once, never used after release, and is released/returned/owned at every exit; a released pointer that is also held in "
-                "caller-visible memory is cleared / re-initialised / released with its object before the function returns (R20.5). The thorough tier repeats this for the "
+                "caller-visible memory is cleared / re-initialised / released with its object before the function returns (R20.5); the owners' "
+                "destructors are total - every release they perform on some path is performed on every returning path unless that pointer is NULL "
+                "there (R20.6). The thorough tier repeats this for the "
                 "posix_memalign and plain-malloc arms (HAVE_MMAP / HAVE_POSIX_MEMALIGN undefined).",
         "note": "libc model: mmap without MAP_FIXED returns MAP_FAILED or non-NULL; errno storage aliases nothing.",
     },
